@@ -119,6 +119,34 @@ def j_hist(nresp, merged=False, client_cookie=False, redirect=False):
         cover("stored")
 
 
+def j_hostopt(target_i, hostopt_i):
+    """cookies are chosen for the host actually connected to, not for a custom Host header value"""
+    quiet_logging()
+    import websocket
+    import websocket._handshake as HS
+    HS.CookieJar.jar.clear()
+    HS.CookieJar.add("a=1; Domain=x.com")
+    HS.CookieJar.add("b=2; Domain=other.org")
+    target = ("x.com", "s.x.com", "other.org", "none.example")[target_i]
+    hostopt = ("x.com", "other.org", "front.example")[hostopt_i]
+    k = Kernel(step_budget=3000)
+    net = Net(k, [{}])
+    simnet.install(k, net)
+    try:
+        ws = websocket.create_connection("ws://%s/" % target, timeout=5, host=hostopt)
+        ws.shutdown()
+    finally:
+        k.shutdown()
+        simnet.uninstall()
+        HS.CookieJar.jar.clear()
+    lines = net.requests[0][2].split("\r\n")
+    got = [l for l in lines if l.lower().startswith("cookie:")]
+    exp = {"x.com": ["Cookie: a=1"], "s.x.com": ["Cookie: a=1"], "other.org": ["Cookie: b=2"], "none.example": []}[target]
+    sx.require("Host: " + hostopt in lines, "Host override sent verbatim")
+    sx.require(got == exp, "cookies follow the connection target, whatever the Host header override says", target=target, hostopt=hostopt, got=str(got))
+    cover("hostopt")
+
+
 def _roundtrip(host, respond, cookie):
     """one real create_connection to ws://host/ on the fake network; returns the request head the server saw"""
     import websocket
@@ -146,6 +174,9 @@ def obligations(tier):
     return [
         Obligation("J-get", j_get, get, bounds="host of 0..%d and domain of 0..%d symbolic ASCII characters; one or two stored domains" % (9 if thorough else 7, 6 if thorough else 4),
                    must_cover=["sent", "not-sent"], budget_s=1800, kernel=["SimpleCookieJar.get"]),
+        Obligation("J-hostopt", j_hostopt, [dict(target_i=t, hostopt_i=h) for t in range(4) for h in range(3)],
+                   bounds="4 targets x 3 values of the host= option with two cookie domains in the jar", must_cover=["hostopt"], step_budget=100000,
+                   kernel=["_handshake._get_handshake_headers"]),
         Obligation("J-hist", j_hist, hist, bounds="histories of <=%d responses over names {a,b} x values {1,2} x domains %s (+ merged two-line form, + caller cookie, + cookie set by a 302 redirect response of the handshake), "
                    "each followed by handshakes to %s" % (3 if thorough else 2, DOMAINS, HOSTS), must_cover=["hist", "stored"], budget_s=2400, step_budget=400000,
                    kernel=["SimpleCookieJar.add", "SimpleCookieJar.get", "_handshake.handshake_response", "_get_handshake_headers", "_http.read_headers (Set-Cookie merge)"]),
